@@ -1,38 +1,55 @@
 #!/usr/bin/env python3
-"""Apply every seeded mutant to /repo in turn, run all registered checks, undo.  Records which checks fire.
-usage: tools/run_seeded.py [seed-dir-name ...]   (default: all)"""
-import json, os, subprocess, sys, glob
+"""Run every registered check against every stored mutant (seeded/*/patch.diff) or refactoring
+(refactors/*/patch.diff), each on its own scratch COPY of /repo (never touching /repo or the committed
+evidence), in parallel.  Records which checks fire in meta.json.
+usage: tools/run_seeded.py [--kind seeded|refactors] [name ...]"""
+import json, os, subprocess, sys, glob, shutil, tempfile
+from concurrent.futures import ThreadPoolExecutor
 V = os.path.dirname(os.path.dirname(os.path.abspath(__file__)))
 sys.path.insert(0, V)
 from pkv.main import RULES
-REPO = '/repo'
-names = sys.argv[1:] or sorted(os.path.basename(p) for p in glob.glob(V + '/seeded/*') if os.path.isdir(p))
-if subprocess.run(['git', '-C', REPO, 'diff', '--quiet']).returncode != 0:
-    sys.exit('/repo has uncommitted changes')
-summary = {}
-for n in names:
-    d = os.path.join(V, 'seeded', n)
-    patch = os.path.join(d, 'patch.diff')
-    if subprocess.run(['git', '-C', REPO, 'apply', patch]).returncode != 0:
-        print(n, 'PATCH DOES NOT APPLY'); summary[n] = None; continue
-    fired = {}
+args = sys.argv[1:]
+kind = 'seeded'
+if args and args[0] == '--kind':
+    kind = args[1]; args = args[2:]
+names = args or sorted(os.path.basename(p) for p in glob.glob(V + '/%s/*' % kind) if os.path.isdir(p))
+
+
+def one(n):
+    d = os.path.join(V, kind, n)
+    tmp = tempfile.mkdtemp(prefix='pkv-seed-')
     try:
+        repo = os.path.join(tmp, 'repo')
+        shutil.copytree('/repo', repo, ignore=shutil.ignore_patterns('target', '.git'))
+        a = subprocess.run(['git', 'apply', '--whitespace=nowarn', os.path.join(d, 'patch.diff')], cwd=repo, capture_output=True, text=True)
+        if a.returncode != 0:
+            return n, None, a.stderr[-300:]
+        env = dict(os.environ, PKV_REPO=repo, PKV_EVIDENCE_DIR=os.path.join(tmp, 'ev'), PKV_REPLAY_DIR=os.path.join(tmp, 'rp'))
+        fired = {}
         for pid in sorted(RULES):
-            p = subprocess.run([os.path.join(V, 'check'), pid, 'quick'], capture_output=True, text=True, cwd=V)
+            p = subprocess.run([os.path.join(V, 'check'), pid, 'quick'], capture_output=True, text=True, cwd=V, env=env)
             viol = [l.strip()[len('violation: '):] for l in p.stdout.split('\n') if l.startswith('  violation:')]
             if p.returncode != 0:
-                fired[pid] = viol[:3] or ['exit %d' % p.returncode]
+                fired[pid] = viol[:3] or ['exit %d: %s' % (p.returncode, (p.stdout + p.stderr)[-200:])]
+        return n, fired, None
     finally:
-        subprocess.run(['git', '-C', REPO, 'checkout', '--', '.'])
-    target = n.split('-')[0]
-    summary[n] = fired
+        shutil.rmtree(tmp, ignore_errors=True)
+
+
+with ThreadPoolExecutor(max_workers=8) as ex:
+    results = list(ex.map(one, names))
+for n, fired, err in results:
+    d = os.path.join(V, kind, n)
+    if fired is None:
+        print('%-10s PATCH DOES NOT APPLY: %s' % (n, err)); continue
     meta_p = os.path.join(d, 'meta.json')
-    meta = json.load(open(meta_p))
+    meta = json.load(open(meta_p)) if os.path.exists(meta_p) else {}
     meta['detected_by'] = fired
-    meta['target_check_fires'] = target in fired
+    if kind == 'seeded':
+        target = n.split('-')[0]
+        meta['target_check_fires'] = target in fired
+        print('%-8s target %s: %s | fired: %s' % (n, target, 'CAUGHT' if target in fired else 'MISSED', ', '.join(sorted(fired)) or '-'))
+    else:
+        meta['false_alarms'] = sorted(fired)
+        print('%-10s %s' % (n, 'SILENT (ok)' if not fired else 'FALSE ALARM: ' + ', '.join('%s[%s]' % (k, v[0][:90]) for k, v in sorted(fired.items()))))
     json.dump(meta, open(meta_p, 'w'), indent=1)
-    print('%-8s target %s: %s | fired: %s' % (n, target, 'CAUGHT' if target in fired else 'MISSED', ', '.join(sorted(fired)) or '-'))
-    for pid, v in fired.items():
-        if pid == target:
-            print('      ', v[0][:200])
-# restore evidence of the unchanged tree is the caller's job (re-run the checks)
